@@ -42,6 +42,7 @@ THEOREMS = [
     "BeyondVerif.C03.tai_utc_between",
     "BeyondVerif.C03.tai_utc_after_last",
     "BeyondVerif.C03.tai_utc_before_first",
+    "BeyondVerif.C03.last_next_spec",
     "BeyondVerif.C03.tai_utc_of_day",
     "BeyondVerif.C03.eop_record_of_day",
     "BeyondVerif.C03.eop_record_spec",
@@ -681,10 +682,21 @@ def lookup_position(num):
     return "mid-day"
 
 
+_readers = {}
+
+
+def _taiutc_reader():
+    from beyond.dates.eop import TaiUtc
+    key = pole_dir()
+    if key not in _readers:
+        _readers[key] = TaiUtc(os.path.join(key, "tai-utc.dat"))
+    return _readers[key]
+
+
 def check_lookup(out, num):
     """the real lookups at `mjd = num / D` (a double) against the IERS file columns read independently:
-    `SimpleEopDatabase.tai_utc` = the value of the last entry of tai-utc.dat whose date is <= mjd (KeyError before the
-    first), `SimpleEopDatabase.finals` = the record of day floor(mjd) (KeyError outside / in a hole),
+    `SimpleEopDatabase.tai_utc` (and `TaiUtc.__getitem__`, `TaiUtc.get_last_next`) = the value of the last entry of
+    tai-utc.dat whose date is <= mjd (KeyError / None before the first), `SimpleEopDatabase.finals` = the record of day floor(mjd) (KeyError outside / in a hole),
     `EopDb.get` = both, or the policy"""
     from beyond.dates.eop import EopDb
     from beyond.errors import EopError
@@ -708,6 +720,18 @@ def check_lookup(out, num):
     if got_t != exp_t:
         out.fail(f"eop-lookup:tai-utc:{pos}", "SimpleEopDatabase.tai_utc(mjd) is not the value of the last tai-utc.dat entry whose date is <= mjd", inp,
                  observed=got_t, expected=exp_t)
+    reader = _taiutc_reader()
+    v = reader[mjd]
+    if (None if v is None else round(v * 1e7)) != exp_t:
+        out.fail(f"eop-lookup:taiutc-getitem:{pos}", "TaiUtc[mjd] is not the value of the last tai-utc.dat entry whose date is <= mjd", inp,
+                 observed=v, expected=exp_t)
+    past, fut = reader.get_last_next(mjd)
+    e_past = leap_before(day) or (None, None)
+    e_fut = next(((m, t) for m, t in leap if m > day), (None, None))
+    got_pf = tuple((e[0], None if e[1] is None else round(e[1] * 1e7)) for e in (past, fut))
+    if got_pf != (e_past, e_fut):
+        out.fail(f"eop-lookup:taiutc-last-next:{pos}", "TaiUtc.get_last_next(mjd) is not (last entry with date <= mjd, first entry with date > mjd)", inp,
+                 observed=got_pf, expected=(e_past, e_fut))
     exp_u = ut1.get(day)
     try:
         rec = db.finals(mjd)
@@ -1408,6 +1432,21 @@ def correspondence(ctx):
     m_tai = core.Driver(ID).run([f"d3tai {n}" for n in nums])
     m_fin = core.Driver(ID).run([f"d3fin {n}" for n in nums])
     m_get = core.Driver(ID).run([f"d3eop {p} {n}" for p, n in zip(pols, nums)])
+    m_lnx = core.Driver(ID).run([f"d3lnx {n}" for n in nums])
+    from beyond.dates.eop import TaiUtc
+    reader = TaiUtc(os.path.join(pole_dir(), "tai-utc.dat"))
+    for n, mt, ml in zip(nums, m_tai, m_lnx):
+        mjd = n / DAY_T
+        pos = lookup_position(n)
+        v = reader[mjd]
+        real = "err key" if v is None else "ok %d" % round(v * 1e7)      # TaiUtc.__getitem__ returns None where tai_utc raises
+        past, fut = reader.get_last_next(mjd)
+        real2 = "ok " + " ".join("none none" if e[0] is None else "%d %d" % (e[0], round(e[1] * 1e7)) for e in (past, fut))
+        out.count(key=("lnx", n), kind="taiutc-reader-lookup", position=pos)
+        if real != mt:
+            out.fail("taiutc-getitem:" + pos, "TaiUtc.__getitem__ differs from taiUtcAt on the regenerated table", f"d3tai {n}", observed=real, expected=mt)
+        if real2 != ml:
+            out.fail("taiutc-last-next:" + pos, "TaiUtc.get_last_next differs from the model", f"d3lnx {n}", observed=real2, expected=ml)
     log.addHandler(grab)
     log.setLevel(logging.WARNING)
     try:
